@@ -248,6 +248,12 @@ def cli_shard(shard, nshards, payload):
             if i % 2 == 0:
                 data = bytes(rng.randrange(256) for _ in range(rng.choice([0, 1, 5, 100, 1500])))
                 gen = "rawbytes"
+                if rng.random() < 0.4:
+                    # a byte order mark in front of bytes that are not text in that encoding (odd length, lone
+                    # surrogates, Latin-1 after a UTF-8 mark)
+                    data = rng.choice([b"\xef\xbb\xbf", b"\xff\xfe", b"\xfe\xff"]) + \
+                        rng.choice([data, b"PROGRAM p (* caf\xe9 *) END_PROGRAM", b"\x00\xd8\x00", b"a", b"\xd8\x00\xd8\x00P\x00"])
+                    gen = "rawbytes+bom"
             else:
                 case = gen_case(rng, rng.randrange(1, 5))
                 data = case["text"].encode("utf-8", "replace")
